@@ -13,6 +13,7 @@ from __future__ import annotations
 
 import json
 import math
+import sys
 import random
 import warnings
 from fractions import Fraction
@@ -77,6 +78,9 @@ def gen_value(r: random.Random) -> float:
         return -math.inf
     if x < 0.18:
         return math.inf
+    if x < 0.26:
+        # the largest / smallest finite doubles: an order key that folds +-inf onto them ties with a genuine value
+        return r.choice([sys.float_info.max, -sys.float_info.max, sys.float_info.max, -sys.float_info.max, 5e-324, -5e-324])
     if x < 0.9:
         return r.choice(GRID)
     return round(r.uniform(-2, 3), 2)
